@@ -751,7 +751,7 @@ def catalan(n):
 
 def blocks(tier, seed):
     q = tier == 'quick'
-    nmax, cmax = (8, 6) if q else (9, 7)
+    nmax, cmax = (8, 6) if q else (11, 9)
     cases = [(n, idx, n <= cmax) for n in range(2, nmax + 1) for idx in range(catalan(n - 1))]
     cases.sort(key=lambda c: (-c[0] * (10 if c[2] else 1)))
     bmax = 9 if q else 24
@@ -790,7 +790,7 @@ def meta(tier, seed):
         rule='every shape x every leaf honest; every corruption of script bytes (bit 0 of each byte), sibling hashes, node scripts, level '
              'order (all permutations), dropped levels, cross-leaf and foreign-tree proofs; recording contract shows which leaves started',
         states_meaning='distinct (shape, leaf, corruption) cases; transitions = merkle levels evaluated',
-        bounds={'max_leaves': 8 if q else 9, 'corruptions_upto_leaves': 6 if q else 7, 'builder_leaf_counts': 9 if q else 24},
+        bounds={'max_leaves': 8 if q else 11, 'corruptions_upto_leaves': 6 if q else 9, 'builder_leaf_counts': 9 if q else 24},
         assumptions=['SHA-256 collision resistance for the rejection direction', 'sibling commitments differ by construction (distinct leaves; '
                      'filler randomness is the counter-based stream of mc.env)'],
     )
